@@ -29,12 +29,7 @@ func runC04CtorBypass(c *Ctx) {
 				if T == nil || st == nil {
 					return
 				}
-				memo := -1
-				for i := 0; i < st.NumFields(); i++ {
-					if st.Field(i).Name() == "cachedSize" {
-						memo = i
-					}
-				}
+				memo := requestMemoField(st)
 				if memo < 0 {
 					return
 				}
@@ -1730,7 +1725,7 @@ func runC18Round5(c *Ctx) {
 // ---------- C19.R14–R16, C20.R17, C15.R13/R14, C16.R14 ----------
 func runC19Round5(c *Ctx) {
 	p := c.P
-	shareRule(c, "C04", runC04, []string{"C04.R6"}, "R14", "TS", "nothing that was handed to the batcher disappears uncounted (same rule as C04.R6, the pending-slot typestate): a pending batch is never overwritten before it was flushed with its own completion callbacks", 12)
+	shareRule(c, "C04", runC04, []string{"C04.R6"}, "R14", "TS", "nothing that was handed to the batcher disappears uncounted (same rule as C04.R6, the pending-slot typestate): a pending batch is never overwritten before it was flushed with its own completion callbacks", batcherFloor)
 	c.Rule("R15", "OWN", "the attribute sets of the two outcomes are slices of their own: in the telemetry wrappers an append whose base is a slice held by a struct field is stored back into that field – two appends to the same field-held base whose results are both kept share its backing array when it has spare capacity, and the second outcome overwrites the first", 2)
 	n := 0
 	for _, rel := range []string{"service/internal/obsconsumer", "exporter/exporterhelper/internal", "receiver/receiverhelper", "processor/processorhelper", "scraper/scraperhelper"} {
